@@ -152,13 +152,20 @@ func (t *taskState) reuseDecode(i int, po *prepOp, in []byte) {
 		t.fail(i, po, "leak", "re-used target differs from an exactly-sized copy of its prior value after decoding the same bytes, at "+path)
 		return
 	}
-	var present map[int]bool
-	if po.ti.T.Kind() == reflect.Struct {
-		present = world.PresentFields(po.data)
-	}
-	if ok, path := world.SlicesExact(tgt.Elem(), po.expVal, t.x.prep.sc.Insts[po.op.Inst], present); !ok {
-		t.fail(i, po, "leak", path)
-		return
+	// The slices oracle reads the statement's rule off the record's shape, which
+	// is only known for well-formed records: a damaged one may carry a slice in
+	// the protobuf repeated form (appending is then right) or be walked
+	// differently from its declared framing. Damaged records are judged by the
+	// physical twin above (and the solo oracle for fresh targets) only.
+	if po.op.Pat != "torn" && po.op.Pat != "damaged" {
+		var present map[int]bool
+		if po.ti.T.Kind() == reflect.Struct {
+			present = world.PresentFields(po.data)
+		}
+		if ok, path := world.SlicesExact(tgt.Elem(), po.expVal, t.x.prep.sc.Insts[po.op.Inst], present); !ok {
+			t.fail(i, po, "leak", path)
+			return
+		}
 	}
 	if po.mergeOK {
 		world.Merge(model.Elem(), po.srcVal, t.x.prep.sc.Insts[po.op.Inst])
